@@ -73,7 +73,10 @@ def verify_all(key, cx, prop=None, timeout_ms=20000, jobs=16, only=None):
         if c is None or not c.verify:
             continue
         if prop is not None and prop not in c.props:
-            continue
+            # C19 (byte order) concerns every function that is instantiated per endianness: its contract is re-verified
+            # together with the pass-through obligation `endianness.passed_on`
+            if not (prop == 'C19' and V.endianness_of(cx.ix.qualname(fn)) is not None):
+                continue
         if only is not None and not only(cx.ix.qualname(fn)):
             continue
         todo.append((fn, c))
